@@ -1,5 +1,6 @@
 /* Starts a program in a chosen initial process state (C20 tie):
- *   tool_launch [--close FD]... [--fsize BYTES] -- program args...
+ *   tool_launch [--close FD]... [--fsize BYTES] [--uid N] -- program args...
+ * --uid N        the program runs as user and group N (a caller who is not root)
  * --close FD     the descriptor is closed before the exec (a daemon / cron style start without stdin, stdout or stderr)
  * --fsize BYTES  RLIMIT_FSIZE = BYTES with SIGXFSZ ignored: a write(2) that would cross the limit is cut short (returns the
  *                number of bytes that still fit) and the next one fails with EFBIG - real partial writes, which strace cannot inject. */
@@ -10,15 +11,17 @@
 #include <signal.h>
 #include <unistd.h>
 #include <sys/resource.h>
+#include <grp.h>
 
 int main(int argc, char **argv) {
     int i = 1;
     int toclose[16], nclose = 0;
-    long fsize = -1;
+    long fsize = -1, uid = -1;
     for (; i < argc; i++) {
         if (!strcmp(argv[i], "--")) { i++; break; }
         if (!strcmp(argv[i], "--close") && i + 1 < argc) { if (nclose < 16) toclose[nclose++] = atoi(argv[++i]); }
         else if (!strcmp(argv[i], "--fsize") && i + 1 < argc) fsize = atol(argv[++i]);
+        else if (!strcmp(argv[i], "--uid") && i + 1 < argc) uid = atol(argv[++i]);
         else { fprintf(stderr, "tool_launch: bad argument %s\n", argv[i]); return 2; }
     }
     if (i >= argc) { fprintf(stderr, "usage: tool_launch [--close FD]... [--fsize BYTES] -- program args...\n"); return 2; }
@@ -26,6 +29,9 @@ int main(int argc, char **argv) {
         struct rlimit rl = { (rlim_t)fsize, (rlim_t)fsize };
         signal(SIGXFSZ, SIG_IGN);
         if (setrlimit(RLIMIT_FSIZE, &rl)) { perror("setrlimit"); return 2; }
+    }
+    if (uid >= 0) {
+        if (setgroups(0, NULL) || setgid((gid_t)uid) || setuid((uid_t)uid)) { perror("setuid"); return 2; }
     }
     for (int k = 0; k < nclose; k++) close(toclose[k]);
     execv(argv[i], argv + i);
